@@ -18,7 +18,8 @@ META = {
         'quick': 'query constraint lists of length 0..2 with symbolic members, every atom attribute symbolic (isotope, '
                  'charge -4..4, radical, neighbours/heteroatoms 0..14, hybridisation 1..4, H 0..4/None, ring-size sets over '
                  '{3,5,6}); bond order lists as symbolic subsets of {1,2,3,4,8}; star environments of 0..4 neighbours; '
-                 'SMARTS atom strings from the documented primitive grammar with <= 2 constraint groups',
+                 'SMARTS atom strings from the documented primitive grammar with <= 2 constraint groups; query atoms built by '
+                 'from_atom with source atom, requested properties and image atom solver-chosen over 5 small molecules',
         'thorough': 'lists up to length 3, more element classes, SMARTS with <= 3 constraint groups, more stereo seeds',
     },
     'outside_claim': ['recursive SMARTS, & logic (documented as unsupported: only rejection is checked)',
@@ -429,7 +430,38 @@ def h_query_stereo(V, smi, flip=False):
     V.observe('text', text)
 
 
+FROM_ATOM = ['CC(C)(C)C(=O)Cl', 'CCN', 'C[NH3+]', 'C1CC1O', '[CH3]']
+
+
+def h_from_atom(V, falsify=False):
+    """a query atom built from a molecule atom constrains exactly the properties asked for, each to the value the source
+    atom has (also when that value is 0): source atom, requested properties and target atom are solver choices"""
+    import chython
+    from chython.periodictable.base.query import QueryElement
+    src = chython.smiles(V.choice('source', FROM_ATOM))
+    tgt = chython.smiles(V.choice('target', FROM_ATOM))
+    n = V.choice('source_atom', sorted(src._atoms)[:5])
+    m = V.choice('target_atom', sorted(tgt._atoms)[:5])
+    flags = {k: bool(V.bool(k)) for k in ('neighbors', 'hybridization', 'heteroatoms', 'hydrogens', 'ring_sizes')}
+    a, b = src._atoms[n], tgt._atoms[m]
+    q = QueryElement.from_atom(a, **flags)
+    want = (a.atomic_number, a.isotope, a.charge, a.is_radical) == (b.atomic_number, b.isotope, b.charge, b.is_radical)
+    for k, attr in (('neighbors', 'neighbors'), ('hybridization', 'hybridization'), ('heteroatoms', 'heteroatoms'),
+                    ('hydrogens', 'implicit_hydrogens')):
+        if flags[k]:
+            want = want and getattr(a, attr) == getattr(b, attr)
+    if flags['ring_sizes']:
+        # a source atom outside rings hands over an empty size list, which constrains nothing; otherwise one common size
+        want = want and (not a.ring_sizes or bool(set(a.ring_sizes) & set(b.ring_sizes)))
+    if falsify:
+        want = not want
+    V.prove(bool(q == b) == want, 'a query atom built from an atom matches exactly the atoms that share the requested properties',
+            {'source': str(src), 'atom': n, 'target': str(tgt), 'image': m, 'flags': flags})
+    V.observe('want', want)
+
+
 HARNESSES = {
+    'from_atom': h_from_atom,
     'atom_eq': h_atom_eq, 'list_elements': h_list_elements, 'ring_labels': h_ring_labels, 'bond_eq': h_bond_eq, 'plain_bond_eq': h_plain_bond_eq, 'calc_labels': h_calc_labels,
     'smarts_atom': h_smarts_atom, 'smarts_rejects': h_smarts_rejects, 'smarts_bond': h_smarts_bond,
     'query_stereo': with_random(h_query_stereo),
@@ -443,6 +475,8 @@ def jobs(tier):
     T = tier == 'thorough'
     lens = [0, 1, 2, 3] if T else [0, 2]
     J = []
+    J.append({'harness': 'from_atom', 'budget_s': 600, 'validate_every': 200, 'max_failures': 10})
+    J.append({'harness': 'from_atom', 'params': {'falsify': True}, 'twin': True, 'budget_s': 60, 'max_failures': 1, 'validate': False})
     pairs = [('element', 'C', 'C'), ('element', 'C', 'N'), ('any', 'A', 'C'), ('list', 'C,N', 'C'), ('list', 'C,N', 'O'),
              ('metal', 'M', 'Fe'), ('metal', 'M', 'C'), ('metal', 'M', 'He'), ('metal', 'M', 'Sb'), ('metal', 'M', 'Rn'),
              ('metal', 'M', 'Na'), ('metal', 'M', 'Og'), ('metal', 'M', 'At'), ('metal', 'M', 'Po')]
